@@ -115,7 +115,7 @@ func fetchVersionsFor(f Format, rc bool) []int16 {
 }
 
 func kafkaVersionsFor(f Format, rc bool) []sarama.KafkaVersion {
-	all := []sarama.KafkaVersion{sarama.V0_8_2_0, sarama.V0_10_0_0, sarama.V0_11_0_0, sarama.V2_1_0_0, sarama.V2_3_0_0}
+	all := []sarama.KafkaVersion{sarama.V0_8_2_0, sarama.V0_10_0_0, sarama.V0_11_0_0, sarama.V1_0_0_0, sarama.V1_1_0_0, sarama.V2_0_0_0, sarama.V2_1_0_0, sarama.V2_3_0_0}
 	min := f.MinMagic()
 	if rc && min < 2 {
 		min = 2
@@ -371,6 +371,9 @@ func RunAll(o RunOpts) {
 		if (f == FTxn || f == FCtrl) && len(g.Log) > 2 && rng.Intn(4) == 0 {
 			g = g.Truncate(1 + rng.Intn(len(g.Log)-1))
 		}
+		if (f == FTxn || f == FCtrl) && rng.Intn(3) == 0 {
+			g = g.WithTail(rng) // an open transaction behind the last stable offset
+		}
 		gg := g
 		rc := rng.Intn(100) < o.RCProb
 		kvs := kafkaVersionsFor(f, rc)
@@ -384,7 +387,7 @@ func RunAll(o RunOpts) {
 		if len(g.Log) > 0 {
 			sc.Oldest = g.Log[0].Lo()
 		}
-		end := g.Log.End()
+		end := g.HWM()
 		switch rng.Intn(8) {
 		case 0:
 			sc.Req = sarama.OffsetOldest
@@ -491,11 +494,12 @@ type E2ECaseJSON struct {
 	Complete bool        `json:"complete"`
 	Closed   bool        `json:"closed_by_consumer"`
 	Icept    int         `json:"interceptors,omitempty"`
+	Requests []string    `json:"fetch_requests,omitempty"`
 }
 
 func E2EJSON(sc E2EScenario, res E2EResult) E2ECaseJSON {
 	js := E2ECaseJSON{Format: sc.Gen.Format.String(), Kafka: sc.KafkaVersion.String(), RC: sc.ReadCommitted, FetchDef: sc.FetchDefault, FetchMax: sc.FetchMax,
-		ChanBuf: sc.ChannelBuffer, Req: sc.Req, Oldest: sc.Oldest, Newest: sc.Gen.Log.End(), Script: sc.Script, Extra: sc.Extra,
+		ChanBuf: sc.ChannelBuffer, Req: sc.Req, Oldest: sc.Oldest, Newest: sc.Gen.HWM(), Script: sc.Script, Extra: sc.Extra,
 		Started: res.Started, Complete: res.Complete, Closed: res.Closed, Icept: len(sc.Interceptors)}
 	for i := 0; i <= sc.Gen.Log.NRecords(); i++ {
 		if sc.Stall[i] {
@@ -504,6 +508,17 @@ func E2EJSON(sc E2EScenario, res E2EResult) E2ECaseJSON {
 	}
 	for _, u := range sc.Gen.Log {
 		js.Units = append(js.Units, u.Describe())
+	}
+	for _, u := range sc.Gen.Tail {
+		js.Units = append(js.Units, "behind the last stable offset: "+u.Describe())
+	}
+	seenReq := map[string]bool{}
+	for _, r := range res.Requests {
+		k := fmt.Sprintf("v%d/isolation=%d", r.Version, r.Isolation)
+		if !seenReq[k] {
+			seenReq[k] = true
+			js.Requests = append(js.Requests, k)
+		}
 	}
 	for _, m := range res.Delivered {
 		js.Got = append(js.Got, m.Offset)
@@ -516,9 +531,23 @@ func E2EJSON(sc E2EScenario, res E2EResult) E2ECaseJSON {
 
 // E2EMonitor evaluates C03 / C11 directly on the Messages() stream.
 func E2EMonitor(sc E2EScenario, res E2EResult) *cf.Monitor {
-	l := sc.Gen.Log
+	l := sc.Gen.ViewFor(sc.ReadCommitted).Log
+	// the request must ask for what the configuration says: a broker only filters / bounds at the LSO when asked to
+	for _, r := range res.Requests {
+		if sc.ReadCommitted && r.Version >= 4 && r.Isolation != int8(sarama.ReadCommitted) {
+			return &cf.Monitor{Signature: "e2e:request-isolation", What: fmt.Sprintf("Consumer.IsolationLevel = ReadCommitted (Config.Version %s) but a FetchRequest v%d carries isolation %d: the broker answers up to the high-water mark without an aborted index", sc.KafkaVersion, r.Version, r.Isolation)}
+		}
+		if !sc.ReadCommitted && r.Isolation != 0 {
+			return &cf.Monitor{Signature: "e2e:request-isolation", What: fmt.Sprintf("Consumer.IsolationLevel = ReadUncommitted but a FetchRequest v%d carries isolation %d", r.Version, r.Isolation)}
+		}
+		for _, b := range r.Blocks {
+			if b.MaxBytes <= 0 || b.Offset < 0 {
+				return &cf.Monitor{Signature: "e2e:request-fields", What: fmt.Sprintf("FetchRequest v%d asks partition %d for offset %d with maxBytes %d", r.Version, b.Partition, b.Offset, b.MaxBytes)}
+			}
+		}
+	}
 	if res.StartErr != nil {
-		inRange := sc.Req == sarama.OffsetOldest || sc.Req == sarama.OffsetNewest || (sc.Req >= sc.Oldest && sc.Req <= l.End())
+		inRange := sc.Req == sarama.OffsetOldest || sc.Req == sarama.OffsetNewest || (sc.Req >= sc.Oldest && sc.Req <= sc.Gen.HWM())
 		if inRange {
 			return &cf.Monitor{Signature: "e2e:start-refused", What: fmt.Sprintf("ConsumePartition(%d) failed: %v", sc.Req, res.StartErr)}
 		}
